@@ -12,5 +12,6 @@ CONSTANTS
   Variant = "ok"
   Eager = TRUE
   Abort = "must"
+  CbErr = FALSE
 INVARIANTS Contract
 CHECK_DEADLOCK FALSE
